@@ -48,7 +48,7 @@ static void opname(int op, char * buf, size_t n) {
     switch (o->kind) {
         case OP_PUSH: snprintf(buf, n, "push(text of %d chars)", o->len); break;
         case OP_PUSHX: snprintf(buf, n, "push(text of %d chars, info_len=%d)", o->len, o->xlen); break;
-        case OP_PUSHQ: snprintf(buf, n, "push(text of %d chars, the %s one a double quote)", o->len, o->q == 1 ? "last" : "first"); break;
+        case OP_PUSHQ: snprintf(buf, n, "push(text of %d chars, the %s one a double quote)", o->len, o->q == 1 ? "last" : o->q == 2 ? "first" : "last one an apostrophe, no"); break;
         case OP_PUSHP: snprintf(buf, n, "push(positive code, text of %d chars)", o->len); break;
         case OP_PUSHN: snprintf(buf, n, "push(no text)"); break;
         case OP_QUERY: snprintf(buf, n, "SYST:ERR?"); break;
@@ -69,6 +69,7 @@ static void build_ops(void) {
     if (H >= 3) { ops[nops].kind = OP_PUSHQ; ops[nops].len = 2; ops[nops].q = 1; nops++; }          /* quotes: doubled on output, part by part when the text wraps */
     if (H >= 5) { ops[nops].kind = OP_PUSHQ; ops[nops].len = 4; ops[nops].q = 1; nops++; }
     if (H >= 4) { ops[nops].kind = OP_PUSHQ; ops[nops].len = 3; ops[nops].q = 2; nops++; }
+    if (H >= 3) { ops[nops].kind = OP_PUSHQ; ops[nops].len = 2; ops[nops].q = 3; nops++; }          /* an apostrophe: not doubled, not followed by anything */
     ops[nops++].kind = OP_PUSHN;
     ops[nops++].kind = OP_QUERY;
     ops[nops++].kind = OP_CLEAR;
@@ -151,6 +152,7 @@ static void mk_text(char * t, char letter, int len, int q) {
     memset(t, letter, (size_t) len); t[len] = 0;
     if (q == 1 && len > 0) t[len - 1] = '"';
     if (q == 2 && len > 0) t[0] = '"';
+    if (q == 3 && len > 0) t[len - 1] = '\'';
 }
 
 static int push_positive = 0;
